@@ -482,3 +482,101 @@ def check_found_by_identity(ctx, rule, module_prefixes=("lena.core.",)):
     ctx.instances_floor(rule + "/found", n, 2, "functions with a None-until-found local")
     if not hits:
         ctx.ok(rule, (module_prefixes[0].rstrip("."), "<package>"), "%d functions: None-until-found locals are tested with `is None`" % n)
+
+
+# -- explaining variables -------------------------------------------------------------------------------------------------
+
+_PURE_NODES = (ast.Name, ast.Constant, ast.BinOp, ast.UnaryOp, ast.Compare, ast.BoolOp, ast.Attribute, ast.Subscript, ast.Tuple,
+               ast.operator, ast.unaryop, ast.cmpop, ast.boolop, ast.expr_context)
+
+
+def path_defs(p, upto=None, exclude=()):
+    """{name: expr} for the local names that the path (its first *upto* events) binds exactly once, by a plain assignment
+    `name = <pure expression>` (names, constants, arithmetic, comparisons, attribute and subscript reads, len(...)), and
+    none of whose operands is rebound later on the path.  Such a name is an explaining variable: a rule that reasons about a
+    condition may read the expression in its place (expand)."""
+    ev = p.ev if upto is None else p.ev[:upto]
+    bound = {}
+    order = []
+    for i, e in enumerate(ev):
+        names = []
+        if e[0] in ("stmt", "partial"):
+            names = [x for t in A.assigned_targets(e[1]) for x in A.target_names(t)]
+        elif e[0] == "iter":
+            names = A.target_names(e[1].target)
+        for n in names:
+            bound.setdefault(n, []).append(i)
+        order.append(names)
+    defs = {}
+    for i, e in enumerate(ev):
+        if e[0] != "stmt" or not isinstance(e[1], ast.Assign) or len(e[1].targets) != 1 or not isinstance(e[1].targets[0], ast.Name):
+            continue
+        name = e[1].targets[0].id
+        if name in exclude or len(bound.get(name, ())) != 1:
+            continue
+        v = e[1].value
+        ok = True
+        for n in ast.walk(v):
+            if isinstance(n, _PURE_NODES):
+                continue
+            if isinstance(n, ast.Call) and isinstance(n.func, ast.Name) and n.func.id == "len" and len(n.args) == 1 and not n.keywords:
+                continue
+            ok = False
+            break
+        if not ok:
+            continue
+        used = {n.id for n in ast.walk(v) if isinstance(n, ast.Name)}
+        if name in used:
+            continue
+        if any(j > i for u in used for j in bound.get(u, ())):
+            continue
+        defs[name] = v
+    return defs
+
+
+class _Expand(ast.NodeTransformer):
+    def __init__(self, defs):
+        self.defs = defs
+        self.depth = 0
+
+    def visit_Name(self, node):
+        if isinstance(node.ctx, ast.Load) and node.id in self.defs and self.depth < 6:
+            self.depth += 1
+            out = self.visit(_copy_expr(self.defs[node.id]))
+            self.depth -= 1
+            return out
+        return node
+
+
+def _copy_expr(e):
+    import copy as _c
+    return _c.deepcopy(e)
+
+
+def expand(expr, defs):
+    """*expr* with explaining variables replaced by their definitions (a fresh tree; the original is not changed)."""
+    if not defs:
+        return expr
+    return ast.fix_missing_locations(_Expand(defs).visit(_copy_expr(expr)))
+
+
+def value_on_path(p, expr, upto=None, stop=()):
+    """What does *expr* hold at event *upto* of path *p*?  A local name is followed through plain assignments
+    `name = <expr>` (the last one before *upto* on the path; names in *stop* are roles the caller knows and are kept),
+    so `t = el; seq.append(t)` reads `el` and `t = Run(el); u = t; seq.append(u)` reads `Run(el)`."""
+    end = len(p.ev) if upto is None else upto
+    seen = set()
+    while isinstance(expr, ast.Name) and expr.id not in stop and expr.id not in seen:
+        seen.add(expr.id)
+        at = None
+        for i, e in enumerate(p.ev[:end]):
+            if e[0] in ("stmt", "partial"):
+                if expr.id in [x for t in A.assigned_targets(e[1]) for x in A.target_names(t)]:
+                    ok = e[0] == "stmt" and isinstance(e[1], ast.Assign) and len(e[1].targets) == 1 and isinstance(e[1].targets[0], ast.Name)
+                    at = i if ok else -1
+            elif e[0] == "iter" and expr.id in A.target_names(e[1].target):
+                at = -1
+        if at is None or at < 0:
+            break
+        expr, end = p.ev[at][1].value, at
+    return expr
